@@ -211,6 +211,162 @@ Proof.
       apply (Hc e1 x); auto. apply in_or_app. now left.
 Qed.
 
+(* ---------- bookkeeping passes: eliminate_constant_assignments, replace_parameter_values ---------- *)
+Lemma eca_loop_facts : forall es al al' cs kept,
+  eca_loop al es = (al', cs, kept) ->
+  incl kept es /\ (forall x, In x al -> In x al' \/ In x (map fst cs)).
+Proof.
+  induction es as [| e es IH]; intros al al' cs kept; simpl.
+  - intro H. inversion H. subst. split; [intros z [] | auto].
+  - destruct (eca_match al e) as [[x v] |].
+    + destruct (eca_loop (remove1 x al) es) as [[a1 c1] k1] eqn:E. intro H. inversion H. subst.
+      destruct (IH _ _ _ _ E) as [I1 I2]. split.
+      * intros z Hz. right. now apply I1.
+      * intros y Hy. simpl. destruct (Pos.eq_dec x y) as [-> | Hn]; [right; now left |].
+        assert (Hr : In y (remove1 x al)).
+        { unfold remove1. apply filter_In. split; auto. apply negb_true_iff. now apply Pos.eqb_neq. }
+        destruct (I2 y Hr); auto.
+    + destruct (eca_loop al es) as [[a1 c1] k1] eqn:E. intro H. inversion H. subst.
+      destruct (IH _ _ _ _ E) as [I1 I2]. split; auto.
+      intros z [-> | Hz]; [now left | right; now apply I1].
+Qed.
+
+Theorem closed_elim_const_assignments tm m : closed tm m -> closed tm (elim_const_assignments m).
+Proof.
+  unfold elim_const_assignments. intro Hc.
+  destruct (eca_loop (algs m) (eqs m)) as [[al cs] kept] eqn:E.
+  destruct (eca_loop_facts _ _ _ _ _ E) as [I1 I2].
+  intros e x Hin Ho. unfold decl, others in *. simpl in *.
+  assert (Hin' : In e (eqs m ++ ieqs m)).
+  { apply in_app_or in Hin. apply in_or_app. destruct Hin; [left; now apply I1 | now right]. }
+  destruct (Hc e x Hin' Ho) as [Hd | Ht]; [| now right]. left.
+  unfold decl, others in Hd. rewrite !in_app_iff in Hd. rewrite !in_app_iff, map_app, in_app_iff.
+  destruct Hd as [Hd | Hd]; [destruct (I2 x Hd); tauto | tauto].
+Qed.
+
+Lemma split_valued_facts2 : forall l,
+  (forall x, In x (map fst l) ->
+             In x (map fst (fst (split_valued l))) \/ In x (map fst (snd (split_valued l))))
+  /\ (forall y v x, In (y, v) (snd (split_valued l)) -> occurs x v = false).
+Proof.
+  induction l as [| [y0 v0] l [IH1 IH2]]; simpl.
+  - split; [intros x [] | intros y v x []].
+  - destruct (split_valued l) as [u d]. simpl in *.
+    destruct v0 as [e |]; [destruct e |]; simpl; split;
+      try (intros z0 [-> | Hx]; [auto | destruct (IH1 z0 Hx); auto]);
+      try (intros y1 v1 z0 [Hyv | Hyv]; [inversion Hyv; reflexivity | eapply IH2; eauto]);
+      try (intros y1 v1 z0 Hyv; eapply IH2; eauto).
+Qed.
+
+Theorem closed_replace_param_values tm m : closed tm m -> closed tm (replace_param_values m).
+Proof.
+  unfold replace_param_values. intro Hc.
+  pose proof (split_valued_facts2 (params m)) as [P1 P2].
+  destruct (split_valued (params m)) as [unspec s]. simpl in P1, P2.
+  assert (Mf : forall l, map fst (subst_vals s l) = map fst l).
+  { intro l. unfold subst_vals. rewrite map_map. apply map_ext. intros [a b]. reflexivity. }
+  intros e x Hin Ho. unfold decl, others in *. simpl in *. rewrite !Mf.
+  assert (Hsub : exists e0, In e0 (eqs m ++ ieqs m) /\ e = subst s e0).
+  { apply in_app_or in Hin. destruct Hin as [Hin | Hin]; apply in_map_iff in Hin;
+      destruct Hin as [e0 [<- Hin]]; exists e0; split; auto; apply in_or_app; [now left | now right]. }
+  destruct Hsub as [e0 [Hin0 ->]].
+  apply subst_occ in Ho. destruct Ho as [[Ho L] | [y [v [_ [L Hv]]]]].
+  - destruct (Hc e0 x Hin0 Ho) as [Hd | Ht]; [| now right]. left.
+    unfold decl, others in Hd. rewrite !in_app_iff in Hd. rewrite !in_app_iff.
+    destruct Hd as [Hd | [Hd | [Hd | [Hd | [Hd | Hd]]]]]; try tauto.
+    destruct (P1 x Hd) as [K | K]; [tauto |]. exfalso.
+    apply lookup_none_notin in L. contradiction.
+  - apply lookup_In in L. rewrite (P2 y v x L) in Hv. discriminate.
+Qed.
+
+(* ---------- replace_parameter_expressions / replace_constant_expressions ---------- *)
+(* the VALUES of parameters and constants only mention declared symbols *)
+Definition vals_closed (tm : name) (m : model) : Prop :=
+  forall y v x, In (y, Some v) (params m ++ consts m) -> occurs x v = true -> In x (decl m) \/ x = tm.
+
+Lemma split_simple_facts2 : forall l,
+  (forall x, In x (map fst l) ->
+             In x (map fst (fst (split_simple l))) \/ In x (map fst (snd (split_simple l))))
+  /\ (forall y v, In (y, v) (snd (split_simple l)) -> In (y, Some v) l).
+Proof.
+  induction l as [| [y0 v0] l [IH1 IH2]]; simpl.
+  - split; [intros z0 [] | intros y1 v1 []].
+  - destruct (split_simple l) as [u d]. simpl in *.
+    destruct v0 as [e |]; [destruct (is_const e) |]; simpl; split;
+      try (intros z0 [-> | Hx]; [auto | destruct (IH1 z0 Hx); auto]);
+      try (intros y1 v1 [Hyv | Hyv]; [inversion Hyv; auto | right; eapply IH2; eauto]);
+      try (intros y1 v1 Hyv; right; eapply IH2; eauto).
+Qed.
+
+Lemma map_fst_subst_vals s l : map fst (subst_vals s l) = map fst l.
+Proof. unfold subst_vals. rewrite map_map. apply map_ext. intros [a b]. reflexivity. Qed.
+
+Theorem closed_replace_exprs tm b m :
+  closed tm m -> vals_closed tm m -> acyclic (expr_defs b m) ->
+  warned m = false -> warned (replace_exprs b m) = false ->
+  closed tm (replace_exprs b m).
+Proof.
+  unfold expr_defs, replace_exprs. intros Hc Hv.
+  pose proof (split_simple_facts2 (if b then params m else consts m)) as [P1 P2].
+  destruct (split_simple (if b then params m else consts m)) as [simple defs]. simpl in P1, P2 |- *.
+  intro Hac.
+  destruct defs as [| d0 defs'].
+  - intros _ _ e x Hin Ho.
+    assert (Hd : In x (decl m) \/ x = tm) by (destruct b; apply (Hc e x); assumption).
+    destruct Hd as [Hd | Ht]; [| now right]. left.
+    unfold decl, others in *. rewrite !in_app_iff in *.
+    destruct b; simpl; rewrite ?in_app_iff;
+      destruct Hd as [Hd | [Hd | [Hd | [Hd | [Hd | Hd]]]]]; try tauto;
+      destruct (P1 x Hd) as [K | []]; tauto.
+  - remember (d0 :: defs') as defs.
+    pose proof (loop_closed_form defs Hac) as CF. simpl in CF.
+    pose proof (subst_fix_length SUBSTITUTE_LOOP_LIMIT (map fst defs) (map snd defs)) as Len.
+    destruct (subst_fix SUBSTITUTE_LOOP_LIMIT (map fst defs) (map snd defs)) as [vals conv].
+    simpl in *. intros Hw0 Hw.
+    assert (conv = true).
+    { destruct b; simpl in Hw; rewrite Hw0 in Hw; simpl in Hw; now apply negb_false_iff in Hw. }
+    subst conv. destruct (CF eq_refl) as [Free Orig].
+    set (s := combine (map fst defs) vals) in *.
+    assert (Dom : map fst s = map fst defs).
+    { unfold s. apply map_fst_combine_len. now rewrite Len, !map_length. }
+    assert (Keep : forall x, (In x (decl m) \/ x = tm) -> lookup x s = None ->
+                   In x (decl (if b
+                     then Model (states m) (ders m) (algs m) (inputs m) (subst_vals s (consts m))
+                                (subst_vals s simple) (map (subst s) (eqs m)) (map (subst s) (ieqs m))
+                                (arel m) (ghost m ++ s) (warned m || negb true) (failed m)
+                     else Model (states m) (ders m) (algs m) (inputs m) (subst_vals s simple)
+                                (subst_vals s (params m)) (map (subst s) (eqs m)) (map (subst s) (ieqs m))
+                                (arel m) (ghost m ++ s) (warned m || negb true) (failed m))) \/ x = tm).
+    { intros x [Hd | Ht] L; [| now right]. left.
+      apply lookup_none_notin in L. rewrite Dom in L.
+      unfold decl, others in *. rewrite !in_app_iff in Hd.
+      destruct b; simpl; rewrite !map_fst_subst_vals, !in_app_iff;
+        destruct Hd as [Hd | [Hd | [Hd | [Hd | [Hd | Hd]]]]]; try tauto;
+        destruct (P1 x Hd) as [K | K]; tauto. }
+    intros e x Hin Ho.
+    assert (Hsub : exists e0, In e0 (eqs m ++ ieqs m) /\ e = subst s e0).
+    { destruct b; simpl in Hin; apply in_app_or in Hin; destruct Hin as [Hin | Hin];
+        apply in_map_iff in Hin; destruct Hin as [e0 [<- Hin]]; exists e0; split; auto;
+        apply in_or_app; [now left | now right | now left | now right]. }
+    destruct Hsub as [e0 [Hin0 ->]].
+    assert (Goal : In x (decl (if b
+                     then Model (states m) (ders m) (algs m) (inputs m) (subst_vals s (consts m))
+                                (subst_vals s simple) (map (subst s) (eqs m)) (map (subst s) (ieqs m))
+                                (arel m) (ghost m ++ s) (warned m || negb true) (failed m)
+                     else Model (states m) (ders m) (algs m) (inputs m) (subst_vals s simple)
+                                (subst_vals s (params m)) (map (subst s) (eqs m)) (map (subst s) (ieqs m))
+                                (arel m) (ghost m ++ s) (warned m || negb true) (failed m))) \/ x = tm).
+    { apply subst_occ in Ho. destruct Ho as [[Ho L] | [y [v [Hy [L Hv']]]]].
+      - apply Keep; auto. eapply Hc; eauto.
+      - assert (Lx : lookup x s = None).
+        { destruct (lookup x s) as [w |] eqn:Lx; auto.
+          rewrite (Free y v x w (lookup_In _ _ _ L) Lx) in Hv'. discriminate. }
+        apply Keep; auto.
+        destruct (Orig x (ex_intro _ y (ex_intro _ v (conj (lookup_In _ _ _ L) Hv')))) as [y0 [v0 [Hd0 Ho0]]].
+        apply (Hv y0 v0 x); auto. apply in_or_app. destruct b; [left | right]; now apply P2. }
+    destruct b; exact Goal.
+Qed.
+
 (* ---------- composition (partial) ---------- *)
 Definition pass_closed (tm : name) (p : pass) : Prop :=
   let '(_, f, H) := p in
@@ -230,8 +386,10 @@ Proof.
 Qed.
 
 (* hypotheses of the closedness composition.  PROVED from the carve-out: the eliminable pass
-   (acyclic assignments, converged loop, no eliminable state).  ASSUMED (stated as the pass's own
-   closedness on the model that reaches it — the missing lemmas): the other six passes. *)
+   (acyclic assignments, converged loop, no eliminable state).  eliminate_constant_assignments, replace_parameter_values
+   (bookkeeping).  replace_parameter/constant_expressions (from: the values reaching the pass only
+   mention declared symbols, acyclic, converged).  ASSUMED (stated as the pass's own closedness on the
+   model that reaches it — the missing lemmas): replace_constant_values, detect_aliases. *)
 Definition H_cl_assumed (tm : name) (f : model -> model) (m : model) : Prop := closed tm (f m).
 Definition H_cl_elim (o : options) (m : model) : Prop :=
   match o_elim o with
@@ -240,11 +398,14 @@ Definition H_cl_elim (o : options) (m : model) : Prop :=
   | None => True
   end.
 
+Definition H_cl_exprs (tm : name) (b : bool) (m : model) : Prop :=
+  vals_closed tm m /\ acyclic (expr_defs b m) /\ warned m = false /\ warned (replace_exprs b m) = false.
+
 Definition passes_cl (tm : name) (o : options) : list pass :=
-  [ (o_rpe o, replace_exprs true, H_cl_assumed tm (replace_exprs true));
-    (o_rce o, replace_exprs false, H_cl_assumed tm (replace_exprs false));
-    (o_eca o, elim_const_assignments, H_cl_assumed tm elim_const_assignments);
-    (o_rpv o, replace_param_values, H_cl_assumed tm replace_param_values);
+  [ (o_rpe o, replace_exprs true, H_cl_exprs tm true);
+    (o_rce o, replace_exprs false, H_cl_exprs tm false);
+    (o_eca o, elim_const_assignments, fun _ => True);          (* proved *)
+    (o_rpv o, replace_param_values, fun _ => True);            (* proved *)
     (o_rcv o, replace_const_values, H_cl_assumed tm replace_const_values);
     (elim_on o, elim_f o, H_cl_elim o);
     (o_da o, detect_aliases (o_allow_der o), H_cl_assumed tm (detect_aliases (o_allow_der o))) ].
@@ -257,9 +418,15 @@ Theorem simplify_once_closed_partial tm o m :
   closed tm (simplify_once o m).
 Proof.
   rewrite (simplify_once_run_cl tm). apply run_closed. unfold passes_cl.
-  repeat (apply Forall_cons; [try (intros m0 H0 _ _ _; exact H0) |]); try apply Forall_nil.
+  apply Forall_cons; [intros m0 H0 Hc _ _; apply closed_replace_exprs; [exact Hc | apply H0 ..] |].
+  apply Forall_cons; [intros m0 H0 Hc _ _; apply closed_replace_exprs; [exact Hc | apply H0 ..] |].
+  apply Forall_cons; [intros m0 _ Hc _ _; now apply closed_elim_const_assignments |].
+  apply Forall_cons; [intros m0 _ Hc _ _; now apply closed_replace_param_values |].
+  apply Forall_cons; [intros m0 H0 _ _ _; exact H0 |].
+  apply Forall_cons; [| apply Forall_cons; [intros m0 H0 _ _ _; exact H0 | apply Forall_nil]].
   intros m0 H0 Hc Hf Hf'. unfold elim_f, H_cl_elim in *. destruct (o_elim o) as [ns |]; [| exact Hc].
   destruct H0 as [Hn [Hac [Hw Hw']]]. rewrite Hn in *.
   destruct (o_expand_mx o); [| simpl in Hf'; discriminate].
   now apply closed_eliminate_vars_acyclic.
 Qed.
+
